@@ -457,6 +457,8 @@ func run(c *vh.Ctx) error {
 	runLargeResets(c, drv)
 	// ---- end-to-end tier: the real fetch loop with scripted peers ---------------------------------------
 	runLoopTier(c)
+	// ---- announcement/propagation path: the real you/fetcher.Fetcher with scripted peers and a blocking importer ----
+	runFetcherTier(c)
 	res.Extra["ops_compared"] = totalOps
 	keys := make([]string, 0, len(res.Distribution))
 	for k := range res.Distribution {
@@ -473,6 +475,20 @@ func run(c *vh.Ctx) error {
 func replayWith(drv *vh.Driver, body, comments []string) (bool, string) {
 	if len(body) == 0 {
 		return false, "empty replay"
+	}
+	if strings.HasPrefix(body[0], "FETCHER ") {
+		f := strings.Fields(body[0])
+		seed := uint64(1)
+		if len(f) > 2 {
+			seed, _ = strconv.ParseUint(f[2], 10, 64)
+		}
+		if len(f) < 2 {
+			return false, "bad FETCHER line"
+		}
+		if v := runFetcherScenario(f[1], seed, 25); v != "" {
+			return true, "oracle: " + v
+		}
+		return false, "fetcher scenario holds in 25 runs: every block imported at most once, parent first, honest blocks imported"
 	}
 	if strings.HasPrefix(body[0], "LOOP ") {
 		sc, err := parseLoopScenario(body[0])
